@@ -39,6 +39,24 @@ CHECKS = {
     'C06': sched('the wake-up oracle (an accepted resume / completed awaitables always lead to the continuation running '
                  'exactly once with the first accepted value, never WAITING at quiescence after play).',
                  'DESIGN.md 3 C06'),
+    'C09': ('input-enumerator',
+            'bounded-exhaustive enumeration of outline ASTs x exhaustive exploration (prefix-replay DFS) of every '
+            'predicate/step return-value sequence on the real WorkChain, against a reference interpreter',
+            'Every outline of the enumerated family (flat blocks, one compound with neighbours, two compounds in sequence, '
+            'nesting depth 2; thorough: 3 conditions, depth 3) is instantiated as a real WorkChain and every sequence of '
+            'predicate values and step return values is executed; the ordered step+predicate call trace, the final state '
+            'and result() are compared with a 30-line reference interpreter of the structured program.',
+            'Trusts the reference interpreter (written from the property statement) and the enumerated family/bounds '
+            'reported in the evidence; while_ predicates are true at most W=2 times per run.', 'DESIGN.md 3 C09'),
+    'C13': ('input-enumerator',
+            'bounded-exhaustive enumeration of step chains x argument/resume/result domains x every subset of '
+            'checkpoint-restore boundaries, executed on the real Process, against a reference model',
+            'All chains of <=3 steps over Continue/Wait/value/UnsuccessfulResult/Stop/Kill with small argument, keyword, '
+            'resume-value, result and message domains are run on the implementation, with a bundle->pickle->unbundle '
+            'restore (abandoning the running instance) at every subset of state-entry boundaries (quick: subsets <=2); '
+            'arguments received by each continuation and the final outcome are compared with a model of the statement.',
+            'Trusts the reference model and the small value domains listed in the evidence rule; steps are synchronous.',
+            'DESIGN.md 3 C13'),
 }
 
 ALL = [f'C{i:02d}' for i in range(1, 21)]
@@ -73,6 +91,10 @@ def main() -> None:
              'serves_properties': [p for p, c in sorted(CHECKS.items()) if c[0] == 'schedule-explorer'],
              'kind_free_text': 'stateless model checker (prefix-replay DFS, deviation budgets) over the implementation '
                                'running on a deterministic hand-stepped asyncio loop'},
+            {'name': 'input-enumerator', 'path': 'pv/props/*.py pv/ckpt.py',
+             'serves_properties': [p for p, c in sorted(CHECKS.items()) if c[0] == 'input-enumerator'],
+             'kind_free_text': 'bounded-exhaustive enumeration of programs / specs / inputs / crash points, each executed '
+                               'on the implementation and compared with a small reference model'},
         ],
         'checks': checks,
         'not_applicable': [{'property_id': p, 'reason': 'check not built yet in this revision (planned, see DESIGN.md 7)'}
